@@ -344,6 +344,10 @@ def gen_doc(rng):
     case["parts"] = parts
     if rng.random() < 0.15:
         case["torn"] = rng.randint(1, 3)
+    if rng.random() < 0.12:
+        # fragment parsing goes through the same sniffing and restart; only
+        # contexts in which a <meta> start tag reaches the in-head handler
+        case["container"] = rng.choice(["div", "body", "head", "td", "p", "html"])
     return case
 
 
@@ -410,7 +414,7 @@ def kwargs_of(case):
     return kw
 
 
-def _parse(source, chunk, kwargs, log=None):
+def _parse(source, chunk, kwargs, log=None, container=None):
     parser = html5lib.HTMLParser(tree=_tb())
 
     def state():
@@ -424,7 +428,10 @@ def _parse(source, chunk, kwargs, log=None):
     U._defaultChunkSize = chunk
     try:
         try:
-            tree = parser.parse(source, **kwargs)
+            if container:
+                tree = parser.parseFragment(source, container=container, **kwargs)
+            else:
+                tree = parser.parse(source, **kwargs)
         except SimBudgetExceeded as e:
             return ("budget", str(e))
         except RecursionError:
@@ -447,19 +454,20 @@ def decode_ref(raw, enc, final=True):
 
 
 def references(case, payload, bom_len):
-    key = (payload, tuple(sorted(kwargs_of(case).items())))
+    cont = case.get("container")
+    key = (payload, tuple(sorted(kwargs_of(case).items())), cont)
     hit = _cache.get("k")
     if hit is not None and hit[0] == key:
         return hit[1]
-    ref = _parse(payload, 10240, kwargs_of(case))
+    ref = _parse(payload, 10240, kwargs_of(case), None, cont)
     dec = dec_nf = None
     if ref[0] == "ok":
         raw = payload[bom_len:]
         text = decode_ref(raw, ref[3], True)
-        dec = _parse(text, 10240, {})
+        dec = _parse(text, 10240, {}, None, cont)
         text_nf = decode_ref(raw, ref[3], False)
         if text_nf != text:
-            dec_nf = _parse(text_nf, 10240, {})
+            dec_nf = _parse(text_nf, 10240, {}, None, cont)
     val = (ref, dec, dec_nf)
     _cache["k"] = (key, val)
     return val
@@ -491,7 +499,7 @@ def execute(case):
     log = ReadLog(len(payload))
     src = make_source(case["kind"], payload, case["src"], log)
     try:
-        out = _parse(src, case["chunk"], kwargs, log)
+        out = _parse(src, case["chunk"], kwargs, log, case.get("container"))
     finally:
         probes.set_budget(None)
     truth, rule, info = ground_truth(case, len(payload), decls)
@@ -632,6 +640,8 @@ def shrinks(case):
             yield dict(case, args=dict(a, **{k: None}))
     if case.get("torn"):
         yield dict(case, torn=0)
+    if case.get("container"):
+        yield dict(case, container=None)
     if case.get("bom"):
         yield dict(case, bom=None)
     src = case["src"]
@@ -658,7 +668,7 @@ def describe(case):
     shown = payload if len(payload) <= 300 else payload[:300] + b"...(%d bytes)" % len(payload)
     return {"bytes": repr(shown), "args": {k: v for k, v in case["args"].items() if v is not None}, "bom": case.get("bom"),
             "decls": decls, "ground_truth": truth, "rule": rule, "kind": case["kind"], "chunk": case["chunk"],
-            "src": c05._short_src(case["src"]), "torn": case.get("torn", 0)}
+            "src": c05._short_src(case["src"]), "torn": case.get("torn", 0), "fragment_container": case.get("container")}
 
 
 def plan(tier):
